@@ -3,7 +3,8 @@
 H-route: hand models of extractAndRemoveScalingAndShear (2-D, 3-D: Model/SHRT.lean) and of one Jacobi rotation + the SVD
 post-passes (Model/Jacobi.lean), theorems in Props/C12.lean, tied to the real code BIT FOR BIT at double
 (harness/corr/c12_corr.cpp, which #includes ImathMatrixAlgo.cpp to reach the helpers of its anonymous namespace, vs
-lean/Driver/SHRT.lean = the models at Float, incl. the whole jacobiSVD / jacobiEigenSolver as a driver-level loop).
+lean/Driver/SHRT.lean = the models at Float / Float32, incl. the whole jacobiSVD / jacobiEigenSolver: the loops are MODEL definitions,
+Model/Jacobi.lean section loops, with their invariants and the eigen bookkeeping proved in Lemmas/C12Loops.lean).
 T-route: the SHRT wrappers regenerated from ImathMatrixAlgo.h (module Gen/C12.lean; the inner function is an opaque call of the
 hand model), theorems in Props/C12.lean and — full-strength recomposition of the 2-D sansScaling/removeScaling —
 Props/C12Recompose.lean (held back by a genuine defect until /repo commit ec5bcdd); the rOrder / Euler<T>& overloads of the 3-D
@@ -12,7 +13,7 @@ theorems in Props/C12Euler.lean; the Euler<T>& overload was a genuine defect unt
 Residue (MEASURED, partial): convergence / accuracy of jacobiSVD, jacobiEigenSolver, min/maxEigenVector, accuracy of the SHRT family on
 floats, procrustes recovery (incl. far-from-origin clouds) and local optimality (harness/corr/c12_residue.cpp)."""
 import os, re, collections
-import lib, troute
+import lib, troute, gen_euler
 
 LEVEL = "proof"
 MODULE = "ImathVerif.Props.C12"
@@ -45,8 +46,13 @@ REQUIRED = [
     "jacobiRotation_computed_parameters", "jacobiRotation_tol0", "jacobiEigenSolver_sweeps_tol0_invariant3",
     "jacobiEigenSolver_sweeps_tol0_invariant4", "jacobiRotation_Z_tracks_diagonal", "nonvacuity_eigAngles",
     "jacobiSVD_post4", "jacobiSVD_forcePositiveDeterminant_det", "jacobiSVD_forcePositiveDeterminant_sign",
-    "maxEigenVector_index4", "minEigenVector_index4"]
-REQUIRED_FULL = ["M33_sansScaling_recompose", "M33_removeScaling_recompose", "M33_sansScaling_witness", "M33_removeScaling_witness"]
+    "maxEigenVector_index4", "minEigenVector_index4",
+    # round 2: the solver loops are model definitions (executed by the driver) with loop invariants and the eigen bookkeeping; W11 leftovers
+    "loops_tabulation_is_identity", "jacobiSVD_loop_induction", "jacobiSVD_loop_tol0_invariant", "jacobiSVD_whole",
+    "jacobiEigenSolver_sweep_Z_tracks_diagonal", "jacobiEigenSolver_update", "jacobiEigenSolver_S_is_diagonal",
+    "jacobiEigenSolver_loop_tol0_invariant", "nonvacuity_eigen_loop", "M22_extractEuler_eq_M33", "M33_composeTRH"]
+REQUIRED_FULL = ["M33_sansScaling_recompose", "M33_removeScaling_recompose", "M33_sansScaling_witness", "M33_removeScaling_witness",
+                 "M33_sansScaling_total", "M33_sansScalingAndShear_total"]
 FULL_KEYS = ["M33_sansScaling_recompose", "M33_removeScaling_recompose"]
 # 3-D recomposition at full strength: the Euler round trip setEulerAngles (extractEulerXYZ R) = R for EVERY rotation matrix
 # (gimbal lock included) is proved in Props/C12Link.lean, which closes M44_extractSHRT/sansScaling_recompose_partial
@@ -73,7 +79,7 @@ REQUIRED_LINK = ["extractEulerXYZ_unit", "extractEulerXYZ_copies_agree", "setEul
                  "M44_extractSHRT_recompose", "M44_sansScaling_recompose", "M44_removeScaling_recompose",
                  "sqrtSpec_real", "eulerTrigSpec_real", "rotH3_extractEulerXYZ_real", "M44_extractSHRT_recompose_real",
                  "M44_sansScaling_recompose_real", "eulerRoundTrip_principal_of_C11", "rotation_is_setEulerAngles",
-                 "ear44_W", "extractSHRT_W", "M44_extractSHRT_total", "M44_sansScaling_total",
+                 "ear44_W", "extractSHRT_W", "M44_extractSHRT_total", "M44_sansScaling_total", "M44_removeScaling_total", "M44_sansScalingAndShear_total",
                  "len3_eq_one", "transpose_eq_adjugate", "len3_of_sq"]
 
 # witness of the (repaired, /repo ec5bcdd) 2-D sansScaling/removeScaling defect: rotation by the 3-4-5 angle (cos 4/5, sin 3/5), translation (3, 4)
@@ -164,7 +170,8 @@ def correspondence(chk, binary, n, f32=False):
     chk.count(tot, nontriv)
     chk.extra["correspondence" + ("_float" if f32 else "")] = {"cases": tot, "per_kind": counts, "branch_hits": stats}
     for need in ("ear44_true", "ear44_false", "ear44_flipped", "ear33_true", "ear33_false", "ear33_flipped",
-                 "jstep3_changed", "jstep3_unchanged", "jstep4_changed", "jstep4_unchanged", "estep3_changed", "estep3_unchanged", "rs_ok", "rs_throw",
+                 "jstep3_changed", "jstep3_unchanged", "jstep4_changed", "jstep4_unchanged", "estep3_changed", "estep3_unchanged",
+                 "estep4_changed", "estep4_unchanged", "svd_force_flips", "rs_ok", "rs_throw",
                  "svd_structured3", "svd_structured4", "eig_structured3", "eig_structured4", "svd_structured_rotated"):
         if int(stats.get(need, 0)) == 0:
             chk.oblige("corr:%sgenerator-hits:%s" % (pre, need), "correspondence", False, "generator never reached this branch")
@@ -211,7 +218,7 @@ def residue(chk, binary, n):
     chk.count(int(m.group(1)), int(m.group(1)))
     hitmap = dict(kv.split("=") for kv in h.group(1).split()) if h else {}
     need = ["shrt3:graded", "shrt3:reflected", "shrt3:no-shear", "shrt3:unit", "shrt2:graded", "shrt2:reflected", "shrt3:order-XYZ",
-            "shrt3:order-ZYX", "shrt3:order-ZXZ", "shrt3:order-XYZr", "procrustes:far-cloud:exact", "procrustes:far-lattice:exact",
+            "shrt3:order-ZYX", "shrt3:order-ZXZ", "shrt3:order-XYZr", "procrustes:far-cloud:exact", "procrustes:far-lattice:exact", "procrustes:formula-compared",
             "procrustes:collinear:exact", "procrustes:coplanar:exact", "procrustes:single:exact", "procrustes:general:noisy",
             "svd:graded", "svd:rank-deficient", "svd:repeated", "svd:last-negative", "eig:graded"]
     missing = [k for k in need if int(hitmap.get(k, 0)) == 0]
@@ -312,6 +319,28 @@ def euler_search(chk, sym_binary, name):
             "orders": bad}
 
 
+def dispatch_rows(chk):
+    """the three hand-written dispatch tables of Props/C12Euler.lean (shrtOrd, shrtEuler, reorder12: 24 rows each): every row
+    `| .<O> => Gen.M44.<fn>_<O> …` must name the definition of ITS OWN order, every order exactly once per table"""
+    src = lib.strip_lean_comments(open(os.path.join(lib.LEAN, "ImathVerif", "Props", "C12Euler.lean")).read())
+    orders = "XYZ XZY YZX YXZ ZXY ZYX XZX XYX YXY YZY ZYZ ZXZ XYZr XZYr YZXr YXZr ZXYr ZYXr XZXr XYXr YXYr YZYr ZYZr ZXZr".split()
+    bad, tables = [], {}
+    for tab, fn in (("shrtOrd", "extractSHRTOrd"), ("shrtEuler", "extractSHRTEuler"), ("reorder12", "reorderFromXYZ")):
+        m = re.search(r"def %s \(o : Ord\).*?(?=\n\n|\ndef |\n/--)" % tab, src, re.S)
+        rows = re.findall(r"\|\s*\.(\w+)\s*=>\s*Gen\.M44\.(\w+?)_(\w+)\s", m.group(0) if m else "")
+        tables[tab] = len(rows)
+        for o, f, o2 in rows:
+            if o != o2 or f != fn:
+                bad.append("%s: row .%s names Gen.M44.%s_%s" % (tab, o, f, o2))
+        if sorted(r[0] for r in rows) != sorted(orders):
+            bad.append("%s: rows %s" % (tab, sorted(r[0] for r in rows)))
+    ok = not bad
+    chk.oblige("tables:C12Euler dispatch rows name the definition of their own order (%s)" % ", ".join("%s=%d" % kv for kv in sorted(tables.items())),
+               "audit", ok, bad[:6] or None)
+    for b in bad[:6]:
+        chk.fail("tables:C12Euler", "tables:C12Euler:" + b.split(":")[0], "dispatch table of Props/C12Euler.lean is not the identity on orders: " + b, {"row": b}, False)
+
+
 def _mm(a, b):
     n = len(a)
     return [[sum(a[i][k] * b[k][j] for k in range(n)) for j in range(n)] for i in range(n)]
@@ -395,8 +424,8 @@ def run(chk):
                    "third translation unit harness/sym/sym_c12p.cpp: ImathMatrixAlgo.cpp #included with the tokens double/V3d/M33d/M44d re-defined "
                    "to the symbolic scalar (the compiled text is the file itself); jacobiSVD an uninterpreted parameter; TV bitwise at double "
                    "against the separately compiled unmodified file",
-                   "C11's extracted Euler definitions (Gen/C11Euler.lean: toMatrix33/44, toXYZVector, XYZ-layout constructor, re-ordering "
-                   "constructor) and theorems, as regenerated by C11's own check",
+                   "C11's extracted Euler definitions (Gen/C11Euler.lean, Gen/C11Algo.lean, Gen/EulerOrder.lean) and theorems: REGENERATED by this "
+                   "check too (tag c11, same extractor as C11's check); their translator validation is C11's obligation",
                    "long double reference arithmetic of the residue harness", "g++ -O1 -ffp-contract=off and the CPU"]
     chk.assumptions = ["theorems are about exact arithmetic over an ordered field; sqrt/sin/cos/atan2 are parameters with explicit hypotheses "
                        "(SqrtSpec, TrigSpec), shown satisfiable by the real functions",
@@ -429,7 +458,8 @@ def run(chk):
                 "point sets general/collinear/coplanar/single/pair/duplicates/far-cloud/far-lattice x weighted x scale x exact/noisy.  non-trivial = "
                 "decompositions that succeed, rotations that change the matrix, whole-solver runs")
     bins = troute.build_extractors(chk, [dict(name="sym_leaf", source="sym/sym_leaf.cpp"), dict(name="sym_c12", source="sym/sym_c12.cpp"),
-                                         dict(name="sym_c12e", source="sym/sym_c12e.cpp")])
+                                         dict(name="sym_c12e", source="sym/sym_c12e.cpp"),
+                                         dict(name="sym_c11", source="sym/sym_c11.cpp")])
     res = lib.cxx_build_many([dict(name="c12_corr", sources=["corr/c12_corr.cpp"]), dict(name="c12_residue", sources=["corr/c12_residue.cpp"]),
                               dict(name="c12_corr_f", sources=["corr/c12_corr.cpp"], extra=("-DC12_FLOAT",)),
                               # symbolic procrustes + the real, unmodified ImathMatrixAlgo.cpp (what translator validation calls)
@@ -445,10 +475,26 @@ def run(chk):
     state = {"sym": bins.get("sym_c12")}
     if bins.get("sym_leaf"):
         troute.regenerate(chk, bins["sym_leaf"], "leaf")
+    # staleness guard for what Props/C12Link.lean and Props/C12Euler.lean import from C11 (Gen/C11Euler.lean, Gen/C11Algo.lean,
+    # Gen/EulerOrder.lean: toMatrix33/44, toXYZVector, the XYZ-layout and re-ordering constructors, the Order codes): regenerated HERE
+    # from the current ImathEuler.h / ImathMatrixAlgo.h, exactly as C11's own check does, so that `check.py C12` alone never proves
+    # statements about old definitions (their translator validation stays C11's obligation)
+    if bins.get("sym_leaf") and bins.get("sym_c11"):
+        okE, infoE = gen_euler.regenerate()
+        chk.oblige("gen:EulerOrder regenerated from the current ImathEuler.h (imported through Props.C11)", "translator", okE, None if okE else infoE)
+        if not okE:
+            chk.fail("gen:EulerOrder", "gen:EulerOrder", "the Order enumeration could not be regenerated from the current header", infoE, False)
+        troute.regenerate(chk, bins["sym_c11"], "c11", idx_deps=[IDX_LEAF])
     if bins.get("sym_c12"):
         index, changed = troute.regenerate(chk, bins["sym_c12"], "c12", idx_deps=idx_deps())
         troute.tv(chk, bins["sym_c12"], "c12", 400 if chk.thorough else 64, idx_deps=idx_deps())
-        troute.lean_tv(chk, bins["sym_c12"], "c12", index, n=8 if chk.thorough else 3, idx_deps=idx_deps())
+        # the opaque callees (hand model of the inner function) have exact-fraction natives = the REAL template at FracS
+        # (c12_shrt_opaque.h), so no entry is skipped any more; many 3-D cases overflow the 128-bit fractions, hence the larger n
+        troute.lean_tv(chk, bins["sym_c12"], "c12", index, n=24 if chk.thorough else 12, idx_deps=idx_deps())
+        sk = (chk.extra.get("lean_tv", {}).get("c12") or {}).get("skipped_external_calls")
+        chk.oblige("lean-tv:c12: no entry skipped for opaque callees (skipped = %s)" % sk, "translation-validation", sk == 0, None if sk == 0 else sk)
+        if sk != 0:
+            chk.fail("lean-tv:c12", "lean-tv:c12:skipped", "Lean-side translator validation skips entries again (exact-fraction natives missing)", {"skipped": sk}, False)
         for d in index[:6]:
             chk.sample({"entry": d["name"], "paths": d.get("paths")})
         if bins.get("sym_c12e"):
@@ -456,11 +502,24 @@ def run(chk):
             # an opaque call of a definition regenerated just above (Gen/C12.lean) or of the hand model
             index_e, _ = troute.regenerate(chk, bins["sym_c12e"], "c12e", idx_deps=idx_deps_e())
             troute.tv(chk, bins["sym_c12e"], "c12e", 400 if chk.thorough else 64, idx_deps=idx_deps_e())
+            # Lean-side validation of the emitted text: callees at exact fractions = the real templates at FracS.  Nearly every
+            # SUCCESSFUL decomposition overflows the 128-bit fractions on the way through extractEulerXYZ and the re-ordering constructor,
+            # so this validates mainly the failure arm (argument passing, tuple shape, order code) — recorded, not hidden
+            troute.lean_tv(chk, bins["sym_c12e"], "c12e", index_e, n=60, idx_deps=idx_deps_e())
             for d in index_e[:4]:
                 chk.sample({"entry": d["name"], "paths": d.get("paths")})
     if bins.get("sym_c12p"):
         index_p, _ = troute.regenerate(chk, bins["sym_c12p"], "c12p")
         troute.tv(chk, bins["sym_c12p"], "c12p", 400 if chk.thorough else 64)
+    # every leaf of the small trees must be reached by the bitwise TV inputs (c12p: zero total weight / general; c12e: failure / success arm,
+    # computeRSMatrix A degenerate / B degenerate / ok): a translator slip on a leaf never reached would be invisible
+    for tg in ("c12p", "c12e"):
+        ph = getattr(chk, "tv_paths", {}).get(tg)
+        if ph is not None:
+            low = sorted(k for k, v in ph.items() if v[0] < v[1])
+            chk.oblige("tv:%s: every leaf of every tree reached by the TV inputs (%d trees)" % (tg, len(ph)), "translation-validation", not low, low[:8] or None)
+            for k in low[:8]:
+                chk.fail("tv:" + tg, "tv:%s:leaves:%s" % (tg, k), "TV inputs do not reach every leaf of %s (%d of %d)" % (k, ph[k][0], ph[k][1]), {"entry": k}, False)
     rc, out = lib.lake_build(["drv_shrt"])
     chk.oblige("build:drv_shrt", "build", rc == 0, None if rc == 0 else out[-800:])
     if rc != 0:
@@ -474,6 +533,7 @@ def run(chk):
     chk.check_theorems(MODULE_FULL, required=REQUIRED_FULL,
                        search=lambda n: defect_search(chk, bins.get("sym_c12"), n) if bins.get("sym_c12") else None)
     chk.check_theorems(MODULE_LINK, required=REQUIRED_LINK, search=lambda n: generic_search(chk, state, n))
+    dispatch_rows(chk)
     chk.check_theorems(MODULE_PROC, required=REQUIRED_PROC, search=lambda n: None)
     chk.check_theorems(MODULE_EULER, required=REQUIRED_EULER,
                        search=lambda n: euler_search(chk, bins.get("sym_c12e"), n) or generic_search(chk, state, n))
